@@ -1177,6 +1177,20 @@ def c16_loop_and_json(res, seed, tier):
                                      f"(step length {cfg['dt']})")
             if len(events) != len(sc["events"]) or any(e["occurrence"] != s_["occ"] or e["duration"] != s_["dur"] for e, s_ in zip(events, sc["events"])):
                 viol(res, "C16", "saved events do not describe the events of the run")
+            else:
+                for e, s_ in zip(events, sc["events"]):
+                    regs_e = sorted({kk.split("|")[0] for kk, v_ in s_["impact"].items() if v_ != 0})
+                    secs_e = sorted({kk.split("|")[1] for kk, v_ in s_["impact"].items() if v_ != 0})
+                    tot_e = float(sum(s_["impact"].values()))
+                    if sorted(e.get("aff_regions", [])) != regs_e or sorted(e.get("aff_sectors", [])) != secs_e:
+                        viol(res, "C16", f"saved events: affected regions / sectors {e.get('aff_regions')} / {e.get('aff_sectors')} are not those of the event ({regs_e} / {secs_e})")
+                    elif abs(float(e.get("impact", float("nan"))) - tot_e) > 1e-9 * max(abs(tot_e), 1e-300):
+                        viol(res, "C16", f"saved events: total impact {e.get('impact')!r}, the event's impacts add up to {tot_e!r}")
+                    if s_["type"] == "rebuild" and "rebuilding_sectors" in e:
+                        want_rs = {kk: float(v_) for kk, v_ in s_["reb_sectors"].items()}
+                        got_rs = {kk: float(v_) for kk, v_ in e["rebuilding_sectors"].items()}
+                        if set(want_rs) != set(got_rs) or any(abs(want_rs[kk] - got_rs[kk]) > 1e-12 for kk in want_rs):
+                            viol(res, "C16", f"saved events: rebuilding sectors {got_rs}, the event declared {want_rs}")
             if index.get("regions") != list(m.regions) or index.get("sectors") != list(m.sectors) or index.get("n_industries") != m.n_sectors * m.n_regions:
                 viol(res, "C16", "saved indexes do not describe the model")
         finally:
